@@ -13,6 +13,8 @@ import C4E.Minter
 import C4E.Distr1
 import C4E.Distributor
 import C4E.Props.C02
+import C4E.Props.C03
+import C4E.Lemmas.DistrTotal
 namespace C4E.Props.C10
 open C4E
 
@@ -83,5 +85,108 @@ def no_halt_full : Prop :=
 theorem nonvacuous : Minter.validate { denom := "uc4e", start := 0, minters := [{ seq := 1, endT := none, cfg := .noMint }] } =
     some { denom := "uc4e", start := 0, minters := [{ seq := 1, endT := none, cfg := .noMint }] } := by
   decide
+
+/-! ### the distributor's BeginBlocker never halts the chain (code-tied multi-denomination model) -/
+
+section DistributorNoHalt
+open C4E.Distr C4E.CoinList C4E.Props.C03
+
+/-- the full invariant of the distributor between blocks: `BlockInv` (C03) plus denom-sorted coin
+    lists, resolvable module accounts behind MODULE_ACCOUNT states, and well-formed bank balances -/
+structure FullInv (e : Env) (w : Distr.World) : Prop where
+  books : BlockInv e w
+  states2 : StatesOk2 e w.states
+  bank : BankOk e w.bank
+
+/-- **C10, distributor part, one block**: for EVERY configuration accepted by `Params.Validate`,
+    EVERY pattern of failing bank calls and every world satisfying the invariant, `BeginBlocker`
+    completes — no `DecCoins.Sub` goes negative, no state lookup meets a nil account, every module
+    account resolves, the burn permission is present — and the result again satisfies the invariant
+    with the books balanced in every denomination -/
+theorem distributor_block_completes (e : Env) (henv : EnvOk e) (hmod : e.modAddr? "" = none) (hburn : BurnerOk e)
+    (subs : List SubD) (hv : paramsValid e subs = true) (hb32 : Bech32Facts subs)
+    (w0 : Distr.World) (faults : List Nat) (hinv : FullInv e w0) :
+    ∃ r, Distr.beginBlock e subs w0 faults = .ok r ∧ FullInv e r.world ∧ ∀ d, UF e d r.world = 0 := by
+  obtain ⟨r, stored, hr, hst, t2, b2⟩ := beginBlock_total e henv hburn subs hv w0 faults
+    hinv.books.states hinv.states2 hinv.bank hinv.books.u
+  obtain ⟨hbi, hU⟩ := faithful_block_books e henv hmod subs hv hb32 w0 faults r hr hinv.books
+  refine ⟨r, hr, ⟨hbi, ?_, b2⟩, hU⟩
+  -- everything in the store after the write was in the list handed to it
+  intro s hs
+  rw [hst] at hs
+  exact t2 s (mem_storeStates stored s hs)
+
+/-- what may happen between two blocks (C03's `Inflow`) with a bank that stays well-formed -/
+def InflowT (e : Env) (w w' : Distr.World) : Prop := Inflow e w w' ∧ BankOk e w'.bank
+
+/-- worlds reachable by inflows and blocks under any accepted configurations and fault patterns -/
+inductive ReachT (e : Env) : Distr.World → Prop
+  | init (w : Distr.World) : FullInv e w → ReachT e w
+  | inflow (w w' : Distr.World) : ReachT e w → InflowT e w w' → ReachT e w'
+  | block (w : Distr.World) (subs : List SubD) (faults : List Nat) (r : BlockRes) :
+      ReachT e w → paramsValid e subs = true → Bech32Facts subs →
+      Distr.beginBlock e subs w faults = .ok r → ReachT e r.world
+
+theorem reachT_inv (e : Env) (henv : EnvOk e) (hmod : e.modAddr? "" = none) (hburn : BurnerOk e) (w : Distr.World)
+    (h : ReachT e w) : FullInv e w := by
+  induction h with
+  | init w hw => exact hw
+  | inflow w w' _ hi ih =>
+    exact ⟨blockInv_inflow e w w' ih.books hi.1, by rw [hi.1.1]; exact ih.states2, hi.2⟩
+  | block w subs faults r _ hv hb hbl ih =>
+    obtain ⟨r', hr', hinv', _⟩ := distributor_block_completes e henv hmod hburn subs hv hb w faults ih
+    rw [hbl] at hr'
+    cases hr'
+    exact hinv'
+
+/-- **C10, distributor part, over histories**: in every world reachable by any history of inflows,
+    parameter changes and blocks with arbitrary transfer failures, the next `BeginBlocker` completes
+    under every accepted configuration and every fault pattern -/
+theorem distributor_never_halts (e : Env) (henv : EnvOk e) (hmod : e.modAddr? "" = none) (hburn : BurnerOk e)
+    (w : Distr.World) (h : ReachT e w) (subs : List SubD) (hv : paramsValid e subs = true) (hb32 : Bech32Facts subs)
+    (faults : List Nat) : ∃ r, Distr.beginBlock e subs w faults = .ok r :=
+  let ⟨r, hr, _, _⟩ := distributor_block_completes e henv hmod hburn subs hv hb32 w faults (reachT_inv e henv hmod hburn w h)
+  ⟨r, hr⟩
+
+/-- the empty distributor over a bank with sorted, non-negative balances satisfies the invariant -/
+theorem fullInv_empty (e : Env) (b : Bank) (hb : BankOk e b) (hmain : ∀ d, 0 ≤ amountOf (b.balance e.mainAddr) d) :
+    FullInv e { bank := b } := by
+  refine ⟨⟨statesOk_nil e, ⟨by simp [keysOf], by intro s hs; cases hs⟩, ?_⟩, statesOk2_nil e, hb⟩
+  intro d
+  have := hmain d
+  have := Int.mul_nonneg this (Int.le_of_lt P_pos)
+  simp only [UF, remSumF]
+  omega
+
+/-- non-vacuity: the concrete world of C03's example satisfies the full invariant and the
+    environment has the burn permission -/
+theorem distributor_block_nonvacuous : BurnerOk exEnv ∧ FullInv exEnv exWorld := by
+  refine ⟨by unfold BurnerOk; decide +kernel, ?_⟩
+  have hbank : BankOk exEnv exWorld.bank := by
+    constructor
+    · intro addr
+      unfold Bank.balance exWorld
+      simp only [AList.get?]
+      split
+      · simp; exact sorted_single _ _
+      · split
+        · simp; exact sorted_single _ _
+        · simp; exact sorted_nil
+    · intro addr _
+      unfold Bank.balance exWorld
+      simp only [AList.get?]
+      split
+      · simp; intro kv hkv; simp at hkv; rw [hkv]; decide
+      · split
+        · simp; intro kv hkv; simp at hkv; rw [hkv]; decide
+        · simp; exact en_nil
+  exact fullInv_empty exEnv exWorld.bank hbank (by
+    intro d
+    have : exWorld.bank.balance exEnv.mainAddr = [("uc4e", 1001)] := by decide +kernel
+    rw [this]
+    simp only [amountOf]
+    split <;> decide)
+
+end DistributorNoHalt
 
 end C4E.Props.C10
